@@ -62,6 +62,26 @@ class C15(Check):
             cases.append(("entry %s 1 0 x 64" % hexs(data), dict(k="read", expect="pwreq")))
             cases.append(("entry %s 1 1 %s 64" % (hexs(data), hexs(pw + b"!")), dict(k="read", expect="reject", content=c.hex())))
             cases.append(("entry %s 0 1 %s 64" % (hexs(data), hexs(pw)), dict(k="read", expect="content", content=b"plain first entry".hex())))
+        # ---- encrypted entries written over sinks that accept only part of each write (never fail): the buffered ciphertext
+        #      must arrive completely; read back with the right password
+        import wprog
+        from wprog import Opts
+        runs, exps = [], []
+        for m in (0, 8):
+            for c in (b"", b"short", bytes(r.randrange(256) for _ in range(700))):
+                ops = [("file", b"plain", Opts()), ("write", b"p"), ("file", b"enc", Opts(method=m, pw=b"pw")), ("write", c),
+                       ("file", b"after", Opts(method=8)), ("write", b"tail"), ("finish",)]
+                for plan in (bytes([1]) * 4000, bytes([7]) * 2000, bytes(r.choice([1, 3, 11, 64]) for _ in range(1500))):
+                    runs.append(dict(ops=ops, plan=plan)); exps.append(c)
+        lines, outs2 = wprog.with_tables(self.exes["debug"], runs)
+        for l, o, c in zip(lines, outs2, exps):
+            cases.append((l, dict(k="write", pw=b"pw".hex(), method=0, content=c.hex(), name=b"enc".hex(), prog=True)))
+            _, data = wprog.final_bytes(o)
+            if data:
+                cases.append(("entry %s 1 1 %s %d" % (hexs(data), hexs(b"pw"), r.choice([1, 7, 4096])), dict(k="read", expect="content", content=c.hex())))
+                cases.append(("entry %s 2 0 x 64" % hexs(data), dict(k="read", expect="content", content=b"tail".hex())))
+            else:
+                cases.append((l, dict(k="write", expect="fail", impl_only=True, note=(o or "")[:80])))
         # ---- foreign entries
         for pw in pws:
             for method in (0, 8, 12):
@@ -110,7 +130,13 @@ class C15(Check):
         if meta["k"] == "write":
             if meta.get("expect") == "fail":
                 return "writer refused a valid encrypted entry: %s" % meta.get("note")
-            data = bytes.fromhex(re.match(r"\[Ok x([0-9a-f]*)\]", out).group(1))
+            if meta.get("prog"):
+                import wprog
+                calls, data = wprog.final_bytes(out)
+                if not data or any(not (isinstance(c_, list) and c_[0] == "Ok") for c_ in (calls or [])):
+                    return "a legal program with an encrypted entry failed over a short-writing sink: " + out[:120]
+            else:
+                data = bytes.fromhex(re.match(r"\[Ok x([0-9a-f]*)\]", out).group(1))
             pw, c = bytes.fromhex(meta["pw"]), bytes.fromhex(meta["content"])
             loc = find_local(data, bytes.fromhex(meta["name"]))
             if loc is None:
